@@ -25,6 +25,18 @@ fn main() {
     truth::setup_for_test_harness();
     install_panic_hook();
 
+    if cmd == "fmt-debug" {
+        // tv fmt-debug WIDTH < text : parse a block, print it at WIDTH, reparse, print again
+        use std::io::Read;
+        let mut text = String::new(); std::io::stdin().read_to_string(&mut text).unwrap();
+        let w: usize = args[2].parse().unwrap();
+        let x = match tx::with_truth(|t| t.parse::<truth::ast::Block>("<input>", text.as_bytes()).map(|x| x.value).map_err(|e| { e.ignore(); tx::diags(t) })) { Ok(x) => x, Err(d) => { println!("source does not parse:\n{}", d); return; } };
+        let s1 = tx::format_at(&x, w).unwrap();
+        let y = match tx::with_truth(|t| t.parse::<truth::ast::Block>("<input>", s1.as_bytes()).map(|x| x.value).map_err(|e| { e.ignore(); tx::diags(t) })) { Ok(x) => x, Err(d) => { println!("--- first\n{}\nprinted text does not parse:\n{}", s1, d); return; } };
+        let s2 = tx::format_at(&y, w).unwrap();
+        println!("--- first\n{}--- second\n{}--- equal ast: {}", s1, s2, x == y);
+        return;
+    }
     if cmd == "spec" { println!("{}", gen::lang::default_lang().to_json()); return; }
     if cmd == "list" { for p in props::all() { println!("{}", p.id()); } return; }
 
